@@ -93,6 +93,15 @@ def run(self):
         if not isinstance(c.returns, Seq):
             raise ContractError("yield_seq needs returns=Seq(elt)")
         st.ghost["yielded"] = Val(c.returns, z3.Empty(c.returns.sort()), parts=("items", []))
+    if c.complete:
+        # an arbitrary value that the generator is obliged to yield; `found` records whether it has been
+        w = self.fresh_of_type(c.complete["type"], st, c.complete["var"])
+        st.ghost[c.complete["var"]] = w
+        self.inputs[c.complete["var"]] = w
+        for r in c.complete["when"]:
+            st.assume(self.spec_truth(r, st))
+        st.ghost["found"] = bool_val(z3.BoolVal(False))
+        self.covers.append((f"{c.qual}/cover.complete", list(st.pc)))
     self.entry = State(dict(st.env), dict(st.heap), list(st.pc), st.next_ref, dict(st.ghost), {})
     self.old_st = self.entry
     self.covers.append((f"{c.qual}/cover.requires", list(st.pc)))
@@ -137,6 +146,9 @@ def check_exit(self, o):
         self.ghost_exec(c.ghost_stmts["exit"], gs)
         st.heap, st.ghost = gs.heap, gs.ghost
     self.covers.append((f"{c.qual}/exit.cover", list(st.pc)))
+    if c.complete:
+        self.oblige(f"{sid}.complete", st, st.ghost["found"].z,
+                    f"every {c.complete['var']} with {' and '.join(c.complete['when'])} has been yielded")
     res = o.value if o.kind == "return" and o.value is not None else none_val()
     if c.yield_seq:
         res = st.ghost["yielded"]
@@ -385,9 +397,17 @@ def st_Expr(self, s, st):
         yield Outcome("normal", s2)
 
 
+def mark_found(self, st, cond):
+    st.ghost = dict(st.ghost)
+    st.ghost["found"] = bool_val(simp(z3.Or(st.ghost["found"].z, cond)))
+
+
 def do_yield(self, node, val, st):
     self.yield_sites += 1
     sid = self.site(node)
+    if self.c.complete and self.cur_fn == self.c.qual:
+        w = st.ghost[self.c.complete["var"]]
+        mark_found(self, st, self.concretise(val, w.t, st).z == w.z)
     if self.c.yield_seq and self.cur_fn == self.c.qual:
         it = self.concretise(val, self.c.returns.elt, st)
         cur = st.ghost["yielded"]
@@ -413,6 +433,20 @@ def do_yield(self, node, val, st):
 def do_yield_from(self, node, val, st):
     self.yield_sites += 1
     sid = self.site(node)
+    if self.c.complete and self.cur_fn == self.c.qual:
+        # the delegated iterable yields w if its element at SOME position equals w.  The position j0 is either the
+        # witness given by the callee's own completeness (instantiated at the hinted value) or stays arbitrary.
+        w = st.ghost[self.c.complete["var"]]
+        view0 = self.view_of(self.iter_value(val, st), st)
+        j0 = fresh("jw", z3.IntSort())
+        hint = (self.c.complete.get("hints") or {}).get(sid.split("/")[-1])
+        inner = view0
+        while getattr(inner, "inner", None) is not None and getattr(inner, "complete_inst", None) is None:
+            inner = inner.inner
+        if hint is not None and getattr(inner, "complete_inst", None) is not None:
+            inner.complete_inst(self.spec_eval(hint, st), j0, st)
+        xw = self.vat(view0, j0, st)
+        mark_found(self, st, z3.And(0 <= j0, j0 < view0.length, self.concretise(xw, w.t, st).z == w.z))
     if not self.c.yields:
         return
     view = self.view_of(self.iter_value(val, st), st)
@@ -694,6 +728,10 @@ def ghost_exec(self, stmts, st):
         if g.startswith("use "):
             self.use_lemma(g[4:], st)
             continue
+        if g.startswith("when ") and ": use " in g:
+            cond, call = g[5:].split(": use ", 1)
+            self.use_lemma(call, st, guard=self.spec_truth(cond, st))
+            continue
         node = ast.parse(g).body[0]
         if isinstance(node, ast.Assign) and isinstance(node.targets[0], ast.Name):
             v = self.spec_eval(node.value, st)
@@ -713,7 +751,7 @@ def ghost_exec(self, stmts, st):
         raise ContractError(f"ghost statement not understood: {g}")
 
 
-def use_lemma(self, call_src, st):
+def use_lemma(self, call_src, st, guard=None):
     """`use lemma_name(args)`: assert the lemma's requires, assume its ensures (the lemma is proved separately)."""
     node = parse_expr(call_src)
     lem = self.reg.contracts.get(node.func.id)
@@ -727,9 +765,10 @@ def use_lemma(self, call_src, st):
     site = self.oid(f"lemma:{node.func.id}")
     for k, r in enumerate(lem.requires):
         z = self.spec_truth(r, ls)
-        self.oblige(f"{site}.pre{k}", st, z, f"lemma precondition: {r}")
+        self.oblige(f"{site}.pre{k}", st, z if guard is None else z3.Implies(guard, z), f"lemma precondition: {r}")
     for p in lem.ensures:
-        st.assume(self.spec_truth(p, ls))
+        z = self.spec_truth(p, ls)
+        st.assume(z if guard is None else z3.Implies(guard, z))
 
 
 # ---------------------------------------------------------------------------------------------- loops
@@ -788,6 +827,16 @@ def exec_loop(self, node, st, iterable):
     pre_loop = State(dict(st.env), dict(st.heap), list(st.pc), st.next_ref, dict(st.ghost), st.labels)
     h = st.copy()
     for n in sorted(names):
+        if n not in h.env:
+            # first assigned inside the loop: at the head of an arbitrary iteration it may or may not be bound yet.
+            # Reading it unbound would be an UnboundLocalError in Python; we do not prove boundness (assumption A9).
+            hint = self.cur_contract.locals.get(n) if self.cur_contract else None
+            if hint is not None:
+                h.env[n] = self.fresh_of_type(hint, h, n)
+                self.assume_log(f"A9: local {n} is bound whenever it is read (first assigned inside a loop)")
+            elif self.lenient:
+                h.env[n] = Unknown(f"local {n} first assigned inside the loop")
+                self.assume_log(f"A9: local {n} is bound whenever it is read (first assigned inside a loop)")
         if n in h.env:
             cur = h.env[n]
             cur = self.guess_tuple(cur, h) if isinstance(cur, PyTuple) else cur
@@ -804,6 +853,8 @@ def exec_loop(self, node, st, iterable):
                 h.env[n] = self.fresh_of_type(hint, h, n)
             else:
                 h.env[n] = self.fresh_of_type(cur.t, h, n)
+    if "found" in h.ghost and any(isinstance(x, (ast.Yield, ast.YieldFrom)) for b in body_nodes for x in ast.walk(b)):
+        h.ghost["found"] = bool_val(fresh("found", z3.BoolSort()))
     if "yielded" in h.ghost and any(isinstance(x, (ast.Yield, ast.YieldFrom)) for b in body_nodes for x in ast.walk(b)):
         h.ghost["yielded"] = self.fresh_of_type(h.ghost["yielded"].t, h, "yielded")
     heap_mods = spec.modifies
